@@ -6,7 +6,7 @@ if ! git diff --quiet; then echo "repo dirty, refusing"; exit 9; fi
 if ! git apply --check "$patch" 2>/dev/null; then
   if git apply --3way --check "$patch" 2>/dev/null; then echo "(needs 3way)"; else echo "PATCH DOES NOT APPLY: $patch"; exit 8; fi
 fi
-git apply "$patch" || exit 8
+git apply "$patch" 2>/dev/null || { echo "PATCH DOES NOT APPLY: $patch"; git checkout -- .; exit 8; }
 ( export GOFLAGS=-mod=mod GOPROXY=off GOSUMDB=off; go build ./... ) || { echo "BUILD FAILS"; git checkout -- . ; exit 7; }
 for p in "$@"; do
   out=$(cd /verif && ./check "$p" quick 2>&1); code=$?
